@@ -834,6 +834,15 @@ class Emitter:
     def val(s, v, ty, fn=None):
         rt = s.resolve(ty) if ty is not None else None
         if isinstance(v, Local):
+            inl = getattr(s, 'inl', None)
+            if inl and v.name in inl:
+                # --inline-gep: address computations are written out again at every use (operands are SSA values, so the
+                # value is the same) - the model checker then sees  base.field[index]  at the access itself instead of a
+                # pointer variable with a symbolic offset
+                di = inl[v.name]
+                if di.op == 'gep':
+                    return s.gep_expr(di.base, di.pty, s.val(di.p, di.pty), di.idx, pval=di.p)[0]
+                return s.cast_expr(di.cop, di.ty, s.val(di.a, di.ty), di.to)
             return 'v_' + cname(v.name)
         if isinstance(v, Global):
             if v.name in s.m.functions or v.name in s.m.declares:
@@ -897,13 +906,28 @@ class Emitter:
             return s.icmp_expr(e.extra, at, s.val(a, at), s.val(b, bt))
         raise NotImplementedError(e.op)
 
-    def gep_expr(s, base, pty, pexpr, idx):
+    def lval_of(s, v):
+        """--inline-gep: the object designated by an inlined getelementptr result, as an lvalue  base.f1.a[i]  (or None)"""
+        inl = getattr(s, 'inl', None)
+        if not inl or not isinstance(v, Local) or v.name not in inl:
+            return None
+        di = inl[v.name]
+        if di.op != 'gep':
+            return s.lval_of(di.a)      # pointer bitcast: the same object, the access type is reconciled at the load/store
+        return s.gep_expr(di.base, di.pty, s.val(di.p, di.pty), di.idx, pval=di.p, want_acc=True)
+
+    def gep_expr(s, base, pty, pexpr, idx, pval=None, want_acc=False):
         # returns (expr, result type)
         cur = base
         (it0, i0) = idx[0]
         expr = f"(({s.cty(PtrTy(base))}){pexpr})"
         i0e = s.idx_expr(i0, it0)
         acc = f"{expr}[{i0e}]" if i0e != '0' else f"(*{expr})"
+        if i0e == '0' and pval is not None:
+            inner = s.lval_of(pval)      # getelementptr of a getelementptr: continue the member path instead of  *&
+            if inner is not None and inner[0] is not None and repr(s.resolve(inner[1].to)) == repr(s.resolve(base)):
+                acc = inner[0]
+        split = None           # --split-index N: (placeholder, index expression, array length) of the one variable index into a small array
         for (it, iv) in idx[1:]:
             rt = s.resolve(cur)
             if isinstance(rt, StructTy):
@@ -911,10 +935,28 @@ class Emitter:
                 acc = f"{acc}.f{k}"
                 cur = rt.fields[k]
             elif isinstance(rt, ArrTy):
-                acc = f"{acc}.a[{s.idx_expr(iv, it)}]"
+                ie = s.idx_expr(iv, it)
+                lim = s.opts.get('split_index') or 0
+                if lim and not isinstance(iv, ConstInt) and 0 < rt.n <= lim and split is None:
+                    split = ('@IDX@', ie, rt.n)
+                    ie = '@IDX@'
+                elif lim and not isinstance(iv, ConstInt) and split is not None:
+                    acc = acc.replace('@IDX@', split[1])   # two variable indices: leave the expression as it is
+                    split = False
+                acc = f"{acc}.a[{ie}]"
                 cur = rt.el
             else:
                 raise NotImplementedError("gep into " + repr(rt))
+        if split:
+            # the address as a case split over the index (0 .. n: the elements and one past the end), every alternative with a
+            # constant offset: the model checker then keeps the object field-wise instead of as bytes; any other index traps
+            ct = s.cty(PtrTy(cur))
+            alts = ''.join(f"({split[1]}) == {k} ? (&{acc.replace('@IDX@', str(k))}) : " for k in range(split[2] + 1))
+            if want_acc:
+                return None, PtrTy(cur)
+            return f"({alts}(({ct})__ll2c_oob_index()))", PtrTy(cur)
+        if want_acc:
+            return acc, PtrTy(cur)
         return f"(&{acc})", PtrTy(cur)
 
     def idx_expr(s, v, ty):
@@ -1082,6 +1124,14 @@ class Emitter:
             for ins in b.instrs:
                 if ins.op == 'cast' and ins.cop == 'bitcast' and ins.res is not None:
                     s.castmap[ins.res] = (ins.ty, ins.a)
+        s.inl = {}
+        if s.opts.get('inline_gep'):
+            for b in f.blocks:
+                for ins in b.instrs:
+                    if ins.res is None:
+                        continue
+                    if ins.op == 'gep' or (ins.op == 'cast' and ins.cop == 'bitcast' and isinstance(s.resolve(ins.ty), PtrTy) and isinstance(s.resolve(ins.to), PtrTy)):
+                        s.inl[ins.res] = ins
         # integer loads whose value is turned back into a pointer (clang reads pointer slots as i64 when it copies small
         # structs): the pointer is also read with pointer type at the same place, and inttoptr uses that copy, so that the
         # model checker keeps the points-to information (the integer value stays in use for everything else)
@@ -1184,6 +1234,20 @@ class Emitter:
         lines.append(f"goto L_{cname(to)};")
         return '{ ' + ' '.join(lines) + ' }'
 
+    def new_type(s, f, call):
+        """the struct type T if the result of this operator-new call is bitcast to T* and sizeof( T ) is the requested size"""
+        for b in f.blocks:
+            for ins in b.instrs:
+                if ins.op == 'cast' and ins.cop == 'bitcast' and isinstance(ins.a, Local) and ins.a.name == call.res:
+                    rt = s.resolve(ins.to)
+                    if isinstance(rt, PtrTy) and isinstance(s.resolve(rt.to), StructTy):
+                        try:
+                            if s.sizeof(rt.to) == call.args[0][1].v:
+                                return rt.to
+                        except NotImplementedError:
+                            pass
+        return None
+
     INTRINSIC_DROP = ('llvm.lifetime.', 'llvm.experimental.noalias.scope.decl', 'llvm.dbg.', 'llvm.assume', 'llvm.invariant.')
 
     def emit_call(s, f, b, ins):
@@ -1265,6 +1329,13 @@ class Emitter:
             throws = False
         elif name == '__cxa_rethrow':
             lines.append("__exc_pending = 1;")
+        elif s.opts.get('typed_new') and name == '_Znwm' and ins.res is not None and isinstance(ins.args[0][1], ConstInt) and s.new_type(f, ins) is not None:
+            # --typed-new: operator new( <constant> ) whose result is used as T* with sizeof( T ) == <constant>: the size is written as
+            # sizeof( T ), so that the model checker allocates an object of type T (field-wise) instead of an array of bytes
+            ct = s.cty(s.new_type(f, ins))
+            lines.append(f"_Static_assert(sizeof({ct}) == {ins.args[0][1].v}, \"typed new\");")
+            lines.append(f"{res}{s.fname(name)}(sizeof({ct}));")
+            throws = s.may_throw(name)
         elif s.opts.get('cut') and name == f.name and s.opts['cut'] in name:
             s.cut_protos.add(f"extern {s.cty(ins.ret)} x_cut_recursion({', '.join('void*' if isinstance(s.resolve(at), PtrTy) else s.cty(at) for (at, _) in ins.args)});")
             lines.append(f"{res}x_cut_recursion({', '.join(args)});")
@@ -1304,6 +1375,20 @@ class Emitter:
             return [f"{r} = {s.val(ins.c, IntTy(1))} ? {s.val(ins.a, ins.ty)} : {s.val(ins.b, ins.ty)};"]
         if op == 'freeze':
             return [f"{r} = {s.val(ins.a, ins.ty)};"]
+        if op in ('load', 'store') and getattr(s, 'inl', None):
+            lv = s.lval_of(ins.p)
+            if lv is not None and lv[0] is not None:
+                et, at = s.resolve(lv[1].to), s.resolve(ins.ty)     # element type of the designated object, type of the access
+                same = repr(et) == repr(at)
+                p2p = isinstance(et, PtrTy) and isinstance(at, PtrTy)
+                i2p = isinstance(et, PtrTy) and isinstance(at, IntTy) and at.bits == 64
+                if op == 'load' and (same or p2p or i2p):
+                    lines = [f"{r} = {lv[0]};" if same else f"{r} = (({s.cty(ins.ty)}){'(u64)' if i2p else ''}{lv[0]});"]
+                    if ins.res in getattr(s, 'ptrshadow', ()):
+                        lines.append(f"vp_{cname(ins.res)} = (void *){lv[0]};")
+                    return lines
+                if op == 'store' and (same or p2p or i2p):
+                    return [f"{lv[0]} = {s.val(ins.v, ins.ty)};" if same else f"{lv[0]} = (({s.cty(lv[1].to)}){'(u64)' if i2p else ''}{s.val(ins.v, ins.ty)});"]
         if op == 'load':
             if ins.res in getattr(s, 'ptrshadow', ()):
                 return [f"{r} = *(({s.cty(PtrTy(ins.ty))}){s.val(ins.p, ins.pty)});", f"vp_{cname(ins.res)} = *((void **){s.val(ins.p, ins.pty)});"]
@@ -1477,6 +1562,7 @@ void __VERIFIER_unreachable(void);
 static void *__exc_alloc(u64 n) { void *p = malloc(n); __VERIFIER_assume_nonnull(p); return p; }
 void __VERIFIER_trap(void);
 void __VERIFIER_indirect_call(void);
+static void *__ll2c_oob_index(void) { __VERIFIER_trap(); return 0; }   /* --split-index: index outside 0 .. length */
 '''
 
 
@@ -1490,9 +1576,12 @@ def main():
     ap.add_argument('--cut', default=None)
     ap.add_argument('--header', default=None)
     ap.add_argument('--info', default=None)
+    ap.add_argument('--split-index', type=int, default=0, help='case-split variable indices into arrays of at most N elements')
+    ap.add_argument('--typed-new', action='store_true', help='operator new of a constant size that is used as one struct type: allocate with sizeof(that type)')
+    ap.add_argument('--inline-gep', action='store_true', help='write address computations (getelementptr, pointer bitcasts) out at every use')
     a = ap.parse_args()
     m = parse_module(open(a.ll).read())
-    em = Emitter(m, {'include': a.include, 'ubcheck': a.ubcheck, 'cut': a.cut})
+    em = Emitter(m, {'include': a.include, 'ubcheck': a.ubcheck, 'cut': a.cut, 'split_index': a.split_index, 'inline_gep': a.inline_gep, 'typed_new': a.typed_new})
     c = em.emit()
     if a.header:
         open(a.header, 'w').write(em.header)
